@@ -325,7 +325,8 @@ PROPS["C17"] = _tx("C17", ["C17_limit_after_reset", "C17_limit_after_restart", "
                            "C17_no_ack_fault_before_limit", "C17_sender_expiry_marks_eof", "C17_sender_no_expiry_quiet",
                            "C17_sender_one_eof_per_mark", "C17_receiver_expiry_marks_finished",
                            "C17_receiver_one_finished_per_mark", "C17_nak_round_progress_resets",
-                           "C17_nak_round_repeats_below_limit", "C17_sender_ack_clears_count"], ["recv", "send"],
+                           "C17_nak_round_repeats_below_limit", "C17_sender_ack_clears_count",
+                           "C17_sender_pdu_clears_inactivity"], ["recv", "send"],
     "Proof: closed form of the Counter (count = min(max, elapsed/timeout)), the limit is reached exactly at "
     "t0 + max*timeout after a reset and after (max-count) further periods after a restart, paused timers never move; "
     "the fault-handler dispatch of both machines (action = configured one, default cancel; ignore leaves phase/state/"
@@ -355,7 +356,8 @@ PROPS["C20"] = _tx("C20", ["C20_receiver_progress_invariant", "C20_receiver_prog
     "so far, monotone, and with C07 never beyond the file size). Lock-step correspondence plus oracles recomputing both "
     "figures independently from the observed PDUs.")
 PROPS["C07"] = _tx("C07", ["C07_initial", "C07_every_step", "C07_nak_split_wellformed", "C07_file_data_correct",
-                           "C07_eof_truthful", "C07_first_pass_covers", "C07_headers_initial", "C07_headers_every_step"], ["send"],
+                           "C07_eof_truthful", "C07_first_pass_covers", "C07_first_pass_in_order", "C07_headers_initial",
+                           "C07_headers_every_step"], ["send"],
     "Proof on the send-transaction model, for all file contents, segment sizes > 0, and operation sequences (NAKs of any "
     "shape, at any time): every file data PDU emitted carries exactly the file's bytes at its offset, is non-empty, at most "
     "one segment long and inside the file; NAK requests are cut to the file and to the segment size; EOF carries the "
@@ -365,7 +367,7 @@ PROPS["C07"] = _tx("C07", ["C07_initial", "C07_every_step", "C07_nak_split_wellf
     "re-checks every emitted PDU (bytes, offsets, sizes, names, checksum, header ids/mode/direction, length field = "
     "encoded payload length).",
     " Not stated as theorems (exercised by the lock-step stream only): 'the first pass sends each byte once, in order' "
-    "(coverage before the EOF IS a theorem; exactly-once and order are not). Direction, destination entity and "
+    "(coverage before the EOF and the in-order, one-PDU-per-run tiling step of the first pass ARE theorems). Direction, destination entity and "
     "length field of every emitted PDU ARE theorems (C07_headers_*: o_len = the model's payload_len formula, which is compared with "
     "the real encoded_len on every emitted PDU); the transaction's id fields (source entity, sequence number) are not part of the model's PDU record: '"
     "'every emitted PDU carries the transaction's ids / a length field equal to its payload' (the model computes the length "
